@@ -364,7 +364,8 @@ where
                             e /= &lb;
                         }
                         let mut sp = ref_mul(&lift_sw::<P>(&tq), &e);
-                        loop {
+                        // bounded: with a wrong COFACTOR constant the chain never reaches the identity
+                        for _ in 0..4096 {
                             let next = ref_mul(&sp, &lb);
                             if next.is_zero() {
                                 break;
